@@ -241,8 +241,61 @@ fn eval_memo(input: &Value, _tab: &AddrTable) -> Value {
            "b64back": b64back, "in": input})
 }
 
+/// Totality on long / odd strings: only "no panic" is judged (the strings are rebuilt from `in`, not stored).
+fn any_string(input: &Value, tab: &AddrTable) -> String {
+    let n = input["n"].as_u64().unwrap() as usize;
+    let a = tab.pick("main", "sapling", 0);
+    match input["kind"].as_str().unwrap() {
+        "rand" | "rand_zcash" => {
+            let mut rng = ChaCha8Rng::seed_from_u64(input["k"].as_u64().unwrap());
+            let mut s = String::from(if input["kind"] == "rand_zcash" { "zcash:" } else { "" });
+            for _ in 0..n {
+                let c = match rng.gen_range(0..4) {
+                    0 => rng.gen_range(0u8..0x80) as char,
+                    1 => *b"zcash:?&=.%+-0123456789".choose(&mut rng).unwrap() as char,
+                    _ => loop {
+                        if let Some(c) = char::from_u32(rng.gen_range(0u32..0x110000)) {
+                            break c;
+                        }
+                    },
+                };
+                s.push(c);
+            }
+            s
+        }
+        "many_items" => format!("zcash:{a}?{}", (0..n).map(|j| format!("p{j}=1")).collect::<Vec<_>>().join("&")),
+        "many_payments" => format!("zcash:?{}", (1..=n.min(9999)).map(|j| format!("address.{j}={a}&amount.{j}=0.{j}")).collect::<Vec<_>>().join("&")),
+        "same_item" => format!("zcash:{a}?{}", vec!["label=a"; n].join("&")),
+        "long_amount_int" => format!("zcash:{a}?amount={}", "9".repeat(n)),
+        "long_amount_zeros" => format!("zcash:{a}?amount={}1", "0".repeat(n)),
+        "long_amount_frac" => format!("zcash:{a}?amount=0.{}", "0".repeat(n)),
+        "long_index" => format!("zcash:?address.{}={a}", "1".repeat(n)),
+        "long_label" => format!("zcash:{a}?label={}", "%41".repeat(n)),
+        "long_percent" => format!("zcash:{a}?label={}", "%".repeat(n)),
+        "long_memo" => format!("zcash:{a}?memo={}", "A".repeat(n)),
+        "long_lead" => format!("zcash:{}", "z".repeat(n)),
+        "long_name" => format!("zcash:{a}?{}=1", "n".repeat(n)),
+        "ampersands" => format!("zcash:{a}?{}", "&".repeat(n)),
+        "questions" => format!("zcash:{}", "?".repeat(n)),
+        "equals" => format!("zcash:{a}?a{}", "=".repeat(n)),
+        "dots" => format!("zcash:{a}?a{}=1", ".".repeat(n)),
+        other => panic!("unknown string kind {other}"),
+    }
+}
+
+fn eval_any(input: &Value, tab: &AddrTable) -> Value {
+    let s = any_string(input, tab);
+    let res = match guarded(|| TransactionRequest::from_uri(&s).map(|r| r.to_uri())) {
+        Err(_) => "panic",
+        Ok(Err(_)) => "err",
+        Ok(Ok(_)) => "ok",
+    };
+    json!({"ev": "any", "kind": input["kind"], "n": input["n"], "len": s.len(), "res": res, "in": input})
+}
+
 fn eval_one(ev: &str, input: &Value, tab: &AddrTable) -> Value {
     match ev {
+        "any" => eval_any(input, tab),
         "uri" => eval_uri(input, tab),
         "rt" => eval_rt(input, tab),
         "pnew" => eval_pnew(input, tab),
@@ -764,6 +817,19 @@ fn main() {
                     u = g.mutate(&u);
                 }
                 emit(&mut w, eval_one("uri", &json!({"uri": u}), &tab));
+            }
+            // totality on long and odd strings
+            for kind in ["many_items", "many_payments", "same_item", "long_amount_int", "long_amount_zeros", "long_amount_frac",
+                         "long_index", "long_label", "long_percent", "long_memo", "long_lead", "long_name", "ampersands",
+                         "questions", "equals", "dots"] {
+                for n in [0usize, 1, 2, 9, 700, 3000] {
+                    emit(&mut w, eval_one("any", &json!({"kind": kind, "n": n}), &tab));
+                }
+            }
+            for j in 0..(n_tok / 4) {
+                let kind = if j % 2 == 0 { "rand" } else { "rand_zcash" };
+                let input = json!({"kind": kind, "n": g.rng.gen_range(0..60), "k": g.rng.gen_range(0..u32::MAX)});
+                emit(&mut w, eval_one("any", &input, &tab));
             }
             // memos
             let fixed: Vec<Vec<u8>> = vec![
